@@ -17,21 +17,41 @@ RULE = ("Generated asynchronous test programs for AsynchronousDeferredRunTest ov
         "with each stage starting exactly when the previous one's Deferred fired; success <=> the timeline model says "
         "everything completed cleanly within the timeout with no logged error / dropped failure / leftover call; "
         "timeout or interrupt => error (interrupt also stop()); afterwards no pending delayed calls and the same "
-        "Twisted log observers; the follow-up test succeeds. Non-trivial: a stage returns a not-yet-fired Deferred and "
+        "Twisted log observers; the follow-up test succeeds. Also generated: an exception INSTANCE as an ordinary stage value, a "
+        "fractional timeout, 0-2 extra new-style and 0-1 extra legacy ambient log observers per case (so 'the observers installed before' "
+        "differs from run to run), and an exhaustive no-tie grid (timeout half a unit before / after a completion; a run cut by the "
+        "timeout or an interrupt after a failed expectThat). A run cut by the timeout or an interrupt (no tie) must report addError, nothing else; "
+        "a run that ended, without any interrupt, while a stage's Deferred was still awaited must report addError; the runner's timeout call "
+        "is recognised as the delayed call the code under test scheduled before the first stage, due 'timeout' after the start (no private "
+        "names); stages that still run AFTER the cut are admitted iff they are the remaining clean-up in order. Non-trivial: a stage returns a not-yet-fired Deferred and "
         "(a second abnormal condition, a timing equality, or an interrupt); distinct = distinct canonical spec.")
 ASSUMPTIONS = [
     "events due at the same virtual instant (a Deferred firing exactly at the timeout, a leftover call due exactly when "
     "the run ends, an interrupt coinciding with either) admit either outcome; all other clauses are still checked",
     "logged / dropped errors are RuntimeErrors, so 'timeout => error' is not blurred by which-exception-wins (C03)",
-    "after a timeout or an interrupt the remaining stages are not run (the statement does not promise they are)",
+    "after a timeout or an interrupt the statement neither promises nor forbids that the rest of the clean-up runs: the present runner "
+    "does not run it; a runner that does (tearDown if the test method had started, then the not-yet-run cleanups, LIFO, no gaps, with "
+    "an addError outcome) is admitted, and a KeyboardInterrupt / SystemExit / GeneratorExit raised by such a stage may leave run()",
+    "once the runner's own timeout call has run while a stage's Deferred was still awaited, the run has timed out (=> addError), even "
+    "if that Deferred fires later in the same reactor pass; a runner that implements its timeout without a delayed call due at "
+    "start + timeout is still covered by the clause 'ended unfinished without an interrupt => addError'",
+    "every stage returns a Deferred of its own: a stage handing back the Deferred object an earlier stage already returned makes "
+    "the runner's chain wait on itself until the timeout (Twisted convention: a Deferred given to a framework is no longer the "
+    "caller's; audit 3 B2), so no program reuses one",
+    "'no Deferred was garbage-collected with an unhandled failure' is read as 'no Deferred created during the run is left holding an "
+    "unhandled failure': the generated dropped Deferreds are unreferenced at once, so the two readings agree on every generated program",
+    "user stages do not install Twisted log observers or fixtures of their own (after a timeout the cleanups that would remove them "
+    "are not run; audit 3 B4)",
 ]
 
 LATTICE = [0, 1, 2, 3]
+# ambient Twisted log observers installed before the run, beyond the harness's own: [new-style, legacy]
+OBSERVERS = st.sampled_from([[0, 0], [0, 0], [1, 0], [2, 0], [0, 1], [1, 1], [2, 1]])
 STAGE = st.fixed_dictionaries({
     "mode": st.sampled_from(["deferred", "deferred", "sync", "chained", "fired"]),      # fired: returns an already-fired Deferred
     "delay": st.sampled_from(LATTICE),
     "result": st.sampled_from(["ok", "ok", "ok", "ok", "ok", "ok", "error", "fail", "skip", "error_falsy", "kbi", "kbi", "sysexit", "genexit"]),   # error_falsy: bool() is False; kbi / sysexit / genexit: KeyboardInterrupt / SystemExit / GeneratorExit raised by user code
-    "value": st.sampled_from([None, None, "Foo", 0, [], True]),       # what a successful stage returns / its Deferred fires with
+    "value": st.sampled_from([None, None, "Foo", 0, [], True, "exc-instance"]),       # what a successful stage returns / its Deferred fires with ("exc-instance": an exception INSTANCE as an ordinary value)
     "expect": st.sampled_from([False] * 9 + [True]),                  # the stage records a failed expectThat
     "never": st.sampled_from([False] * 9 + [True]),
     "leave_call": st.one_of(st.none(), st.none(), st.none(), st.sampled_from([0, 1, 2, 5, 9])),
@@ -40,16 +60,17 @@ STAGE = st.fixed_dictionaries({
 })
 CASE_RANDOM = st.fixed_dictionaries({
     "setUp": STAGE, "test": STAGE, "tearDown": STAGE, "cleanups": st.lists(STAGE, max_size=3),
-    "timeout": st.sampled_from([20, 20, 20, 6, 4, 3, 2, 1, 12]), "interrupt": st.one_of(st.none(), st.none(), st.none(), st.none(), st.sampled_from([0, 1, 2, 3, 5, 9])),
+    "timeout": st.sampled_from([20, 20, 20, 6, 4, 3, 2, 1, 12, 2.5]), "interrupt": st.one_of(st.none(), st.none(), st.none(), st.none(), st.sampled_from([0, 1, 2, 3, 5, 9])),
     "variant": st.sampled_from(["plain", "broken"]), "suppress": st.booleans(), "store": st.booleans(),
     "ties": st.lists(st.integers(0, 3), max_size=5),
     "followup": st.sampled_from(["fresh-sync", "same-reactor-async"]),
+    "observers": OBSERVERS,
 })
 
 
 QUIET = st.fixed_dictionaries({
     "mode": st.sampled_from(["deferred", "deferred", "sync", "chained", "fired"]), "delay": st.sampled_from(LATTICE), "result": st.just("ok"),
-    "value": st.sampled_from([None, "Foo", 0, []]), "expect": st.just(False),
+    "value": st.sampled_from([None, "Foo", 0, [], "exc-instance"]), "expect": st.just(False),
     "never": st.just(False), "leave_call": st.none(), "log_err": st.just("no"), "drop_failed": st.just(False)})
 NONEXC = {"kbi": KeyboardInterrupt, "sysexit": SystemExit, "genexit": GeneratorExit}
 SINGLE_FAULT = st.sampled_from([("expect", True), ("result", "kbi"), ("result", "sysexit"), ("result", "genexit"), ("result", "error"), ("result", "fail"), ("result", "skip"), ("result", "error_falsy"), ("result", "error"),
@@ -63,7 +84,7 @@ def s_single_fault(draw):
     spec = {"setUp": draw(QUIET), "test": draw(QUIET), "tearDown": draw(QUIET), "cleanups": draw(st.lists(QUIET, max_size=3)),
             "timeout": 20 if draw(st.integers(0, 5)) else 12, "interrupt": None, "variant": draw(st.sampled_from(["plain", "broken"])),
             "suppress": draw(st.booleans()), "store": draw(st.booleans()), "ties": draw(st.lists(st.integers(0, 3), max_size=5)),
-            "followup": draw(st.sampled_from(["fresh-sync", "same-reactor-async"]))}
+            "followup": draw(st.sampled_from(["fresh-sync", "same-reactor-async"])), "observers": draw(OBSERVERS)}
     names = ["setUp", "test", "tearDown"] + ["cleanup%d" % i for i in range(len(spec["cleanups"]))] * 2
     where = draw(st.sampled_from(names))
     field, value = draw(SINGLE_FAULT)
@@ -82,6 +103,7 @@ def model(spec):
     log = []
     bad = set()
     tie = False
+    tie_cut = False     # ... the timeout / the interrupt coincides with a stage boundary: the run may or may not have been cut there
     leftovers = []      # absolute due times of calls left behind
     order = ["setUp"]
     stages = {"setUp": spec["setUp"], "test": spec["test"], "tearDown": spec["tearDown"]}
@@ -108,7 +130,7 @@ def model(spec):
         if terminated:
             break
         if (T == t or ti == t) and name != "setUp":
-            tie = True
+            tie = tie_cut = True
         log.append((name, t))
         if s["leave_call"] is not None:
             leftovers.append(t + s["leave_call"])
@@ -129,7 +151,7 @@ def model(spec):
             t = cut
             break
         if cut == fire and s["mode"] in ("deferred", "chained"):
-            tie = True
+            tie = tie_cut = True
         t = fire
         if s["result"] != "ok":
             bad.add({"error": "error", "error_falsy": "error", "fail": "failure", "skip": "skip", "kbi": "error", "sysexit": "error", "genexit": "error"}[s["result"]])
@@ -152,8 +174,21 @@ def model(spec):
         elif due == end:
             tie = True
     if ti is not None and ti == end and not terminated:
-        tie = True
-    return {"log": log, "bad": bad, "tie": tie, "end": end, "terminated": terminated, "propagates": propagates, "may_propagate": may_propagate or propagates}
+        tie = tie_cut = True
+    return {"log": log, "bad": bad, "tie": tie, "tie_cut": tie_cut, "end": end, "terminated": terminated, "propagates": propagates,
+            "may_propagate": may_propagate or propagates}
+
+
+def extras_ok(ran, extra, spec):
+    """After a timeout or an interrupt the statement neither promises nor forbids that the remaining clean-up still
+    runs.  ``ran``: names of the stages up to the cut; ``extra``: names of the stages that ran after it.  Admitted:
+    (tearDown, if the test method had started and tearDown had not) followed by the not-yet-run cleanups, in LIFO
+    order, without gaps, any number of them."""
+    extra = list(extra)
+    if extra and extra[0] == "tearDown" and "tearDown" not in ran and "test" in ran:
+        extra = extra[1:]
+    remaining = ["cleanup%d" % i for i in reversed(range(len(spec["cleanups"]))) if "cleanup%d" % i not in ran]
+    return extra == remaining[:len(extra)]
 
 
 _QUIET = [False]
@@ -176,6 +211,30 @@ def _quiet_twisted():
         gc.disable()     # collections happen only where the harness asks for them (see run_case)
 
 
+class PReactor(VReactor):
+    """A VReactor that knows which delayed calls the harness scheduled itself (``own``); every other delayed call
+    was scheduled by the code under test and is remembered in ``foreign``."""
+
+    def __init__(self, ties=()):
+        VReactor.__init__(self, ties)
+        self.foreign = []        # (DelayedCall, True if scheduled before the first stage had started)
+        self.stages_started = 0
+        self._own = False
+
+    def own(self, delay, f, *a, **kw):
+        self._own = True
+        try:
+            return self.callLater(delay, f, *a, **kw)
+        finally:
+            self._own = False
+
+    def callLater(self, delay, f, *a, **kw):
+        c = VReactor.callLater(self, delay, f, *a, **kw)
+        if not self._own:
+            self.foreign.append((c, self.stages_started == 0))
+        return c
+
+
 def run_case(spec):
     _quiet_twisted()
     import testtools
@@ -186,8 +245,11 @@ def run_case(spec):
     vs = []
     m = model(spec)
     with SignalSandbox():
-        reactor = VReactor(spec["ties"])
+        reactor = PReactor(spec["ties"])
         stage_log = []
+        events = []          # ("start" | "fired", stage, number of delayed calls the reactor had run or begun by then)
+        stages = {"setUp": spec["setUp"], "test": spec["test"], "tearDown": spec["tearDown"]}
+        stages.update(("cleanup%d" % i, c) for i, c in enumerate(spec["cleanups"]))
         fire_log = []        # (stage, True if its Deferred fired only after the reactor had stopped running)
         waited = []          # stages that returned a Deferred due to fire later
         cls = AsynchronousDeferredRunTest if spec["variant"] == "plain" else AsynchronousDeferredRunTestForBrokenTwisted
@@ -196,8 +258,10 @@ def run_case(spec):
 
         def act(case, name, s):
             stage_log.append((name, reactor.seconds()))
+            events.append(("start", name, len(reactor.fired), reactor.running or reactor.in_run))
+            reactor.stages_started += 1
             if s["leave_call"] is not None:
-                reactor.callLater(s["leave_call"], lambda: None)
+                reactor.own(s["leave_call"], lambda: None)
             if s["log_err"] == "one":
                 tlog.err(RuntimeError("logged-MARK"))
             elif s["log_err"] == "two_flush_one":
@@ -218,12 +282,13 @@ def run_case(spec):
             if s.get("expect"):
                 from testtools.matchers import Equals
                 case.expectThat(1, Equals(2))
+            value = ValueError("value-MARK") if s.get("value") == "exc-instance" else s.get("value")    # a value, not a failure
             if s["mode"] == "sync":
                 if s["result"] != "ok":
                     raise exc()
-                return s.get("value")
+                return value
             if s["mode"] == "fired":
-                return defer.succeed(s.get("value")) if s["result"] == "ok" else defer.fail(exc())
+                return defer.succeed(value) if s["result"] == "ok" else defer.fail(exc())
             d = defer.Deferred()
             if s["mode"] == "chained":
                 # already fired, but its chain is paused on an inner Deferred that has not fired yet
@@ -235,11 +300,12 @@ def run_case(spec):
                 return outer
             def fire(how, what):
                 fire_log.append((name, not reactor.in_run))
+                events.append(("fired", name, len(reactor.fired), reactor.in_run))
                 how(what)
             if s["result"] == "ok":
-                reactor.callLater(s["delay"], fire, d.callback, s.get("value"))
+                reactor.own(s["delay"], fire, d.callback, value)
             else:
-                reactor.callLater(s["delay"], fire, d.errback, exc())
+                reactor.own(s["delay"], fire, d.errback, exc())
             waited.append(name)
             return outer
 
@@ -268,9 +334,17 @@ def run_case(spec):
             def test_clean(self):
                 if spec.get("followup") == "same-reactor-async":
                     d = defer.Deferred()
-                    self.reactor.callLater(0, d.callback, "fine")
+                    self.reactor.own(0, d.callback, "fine")
                     return d
                 return None
+        # ambient observers differ from case to case: 'exactly those installed before' is about THIS run's before
+        n_new, n_legacy = spec.get("observers") or [0, 0]
+        extra_new = [(lambda event: None) for _ in range(n_new)]
+        extra_legacy = [(lambda event_dict: None) for _ in range(n_legacy)]
+        for o in extra_new:
+            globalLogPublisher.addObserver(o)
+        for o in extra_legacy:
+            tlog.addObserver(o)
         observers_before = list(globalLogPublisher._observers)
         legacy_before = list(tlog.theLogPublisher.observers)
         if spec["interrupt"] is not None:
@@ -287,21 +361,44 @@ def run_case(spec):
             raised = e
         names = [e[0] for e in res.events]
         core = [n for n in names if n in ("startTest", "stopTest") or n in OUTCOMES]
-        if raised is not None and not (m["may_propagate"] and isinstance(raised, tuple(NONEXC.values()))):
-            vs.append(V("run-raises", type(raised).__name__, "run() raised %r" % (raised,)))
-        if m["propagates"] and not m["terminated"] and not m["tie"] and raised is None:
-            vs.append(V("outcome", "interrupt-swallowed", "user code raised KeyboardInterrupt / SystemExit / GeneratorExit; run() returned normally (outcomes %r)" % ([e[0] for e in res.events if e[0] in OUTCOMES],)))
         if not (len(core) == 3 and core[0] == "startTest" and core[1] in OUTCOMES and core[2] == "stopTest"):
             vs.append(V("bracket", "shape", "events %r, expected startTest / one outcome / stopTest" % (core,)))
             out = None
         else:
             out = core[1]
         # ---- stage order and timing
-        if stage_log != m["log"][:len(stage_log)] or (not m["terminated"] and not m["tie"] and len(stage_log) != len(m["log"])):
-            if not (m["tie"] and [x[0] for x in stage_log] == [x[0] for x in m["log"]][:len(stage_log)]):
+        ran = [x[0] for x in stage_log]
+        mnames = [x[0] for x in m["log"]]
+        # what ran after a timeout / an interrupt is admitted (not required): the rest of the clean-up, in order
+        may_extend = bool(m["terminated"] or m["tie_cut"]) and out == "addError"
+        extra = []
+        if not m["tie"]:
+            k = len(m["log"])
+            head, extra = stage_log[:k], stage_log[k:]
+            if head != m["log"][:len(head)]:
                 vs.append(V("stage-order", "log", "stages ran as %r, timeline model says %r" % (stage_log, m["log"])))
-        elif m["terminated"] and not m["tie"] and len(stage_log) != len(m["log"]):
-            vs.append(V("stage-order", "after-termination", "stages %r ran, model says %r before the %s" % (stage_log, m["log"], m["terminated"])))
+            elif extra:
+                times = [m["end"]] + [x[1] for x in extra]
+                if not (may_extend and extras_ok(mnames, [x[0] for x in extra], spec) and times == sorted(times)):
+                    vs.append(V("stage-order", "log", "stages ran as %r, timeline model says %r (terminated=%r)" % (stage_log, m["log"], m["terminated"])))
+            elif len(head) != k:
+                if m["terminated"]:
+                    vs.append(V("stage-order", "after-termination", "stages %r ran, model says %r before the %s" % (stage_log, m["log"], m["terminated"])))
+                else:
+                    vs.append(V("stage-order", "log", "stages ran as %r, timeline model says %r" % (stage_log, m["log"])))
+        else:
+            j = 0
+            while j < len(ran) and j < len(mnames) and ran[j] == mnames[j]:
+                j += 1
+            extra = stage_log[j:]
+            if extra and not (may_extend and extras_ok(ran[:j], ran[j:], spec)):
+                vs.append(V("stage-order", "log", "stages ran as %r, timeline model says %r" % (stage_log, m["log"])))
+        # ---- what run() raises
+        extra_nonexc = any(stages[x[0]]["result"] in NONEXC for x in extra if x[0] in stages)
+        if raised is not None and not ((m["may_propagate"] or extra_nonexc) and isinstance(raised, tuple(NONEXC.values()))):
+            vs.append(V("run-raises", type(raised).__name__, "run() raised %r" % (raised,)))
+        if m["propagates"] and not m["terminated"] and not m["tie"] and raised is None:
+            vs.append(V("outcome", "interrupt-swallowed", "user code raised KeyboardInterrupt / SystemExit / GeneratorExit; run() returned normally (outcomes %r)" % ([e[0] for e in res.events if e[0] in OUTCOMES],)))
         # ---- outcome
         if out is not None and not m["tie"]:
             if not m["bad"]:
@@ -320,6 +417,9 @@ def run_case(spec):
                     # business of C03, whose quantifier is the synchronous runner.)
                     admissible = {OUT for OUT in ("addError", "addFailure", "addSkip")
                                   if {"addError": "error", "addFailure": "failure", "addSkip": "skip"}[OUT] in m["bad"]}
+                else:
+                    # 'a timeout or an interrupt yields an error', whatever else (a failed expectThat, ...) happened before
+                    admissible = {"addError"}
                 if out not in admissible:
                     why = m["terminated"] or ",".join(sorted(m["bad"]))
                     vs.append(V("outcome", "%s-reported-as-%s" % (why, out), "model: %r terminated=%r; outcome %s, admissible %r" % (
@@ -332,19 +432,48 @@ def run_case(spec):
         elif out is not None and m["tie"] and out == "addSuccess" and ({"error", "failure"} & m["bad"]) and not (
                 m["bad"] == {"error"} and (m["terminated"] or True)):
             pass
-        # ---- whatever else was due at that instant: once the timeout has elapsed the test cannot pass
-        timed_out = any(getattr(getattr(c, "func", None), "__name__", "") == "_timed_out" for tm, c in reactor.fired)
-        if timed_out and out is not None and out != "addError":
-            vs.append(V("outcome", "timeout-elapsed-reported-as-%s" % out, "the timeout call fired (at %r) but the outcome is %s" % (
-                [tm for tm, c in reactor.fired if getattr(getattr(c, "func", None), "__name__", "") == "_timed_out"], out)))
+        # ---- whatever else was due at that instant: once the timeout has elapsed with the chain unfinished the
+        #      outcome is an error.  The runner's timeout call is recognised by what it is, not by its name: a delayed
+        #      call that the code under test (not the harness) scheduled before the first stage started and that is due
+        #      exactly ``timeout`` after the start of the run (virtual time 0).
+        def waiting_at(n):
+            """The stage whose Deferred the chain was waiting for when the reactor had begun n delayed calls (or None)."""
+            started = [e for e in events if e[0] == "start" and e[2] <= n]
+            if not started:
+                return None
+            name = started[-1][1]
+            s_ = stages[name]
+            if s_["mode"] not in ("deferred", "chained"):
+                return None
+            if s_["never"] or not any(e[0] == "fired" and e[1] == name and e[2] <= n for e in events):
+                return name
+            return None
+        timeout_calls = [c for c, early in reactor.foreign if early and c.getTime() == spec["timeout"]]
+        timeout_fired = [(i, tm) for i, (tm, c) in enumerate(reactor.fired) if any(c is tc for tc in timeout_calls)]
+        for i, tm in timeout_fired[:1]:
+            # (a delayed call running in pass number i has i calls before it)
+            if waiting_at(i) is not None and out is not None and out != "addError":
+                vs.append(V("outcome", "timeout-elapsed-reported-as-%s" % out, "the timeout call fired (at %r) while stage %r was still waiting, but the outcome is %s" % (
+                    tm, waiting_at(i), out)))
         # ---- a Deferred the chain was still waiting for when the reactor stopped (it fires during the clean-up
         #      iterations, or never): the chain did not complete, whatever happens to that Deferred afterwards
         late = [n for n in waited if (n, False) not in fire_log]
         if late and out == "addSuccess":
             vs.append(V("outcome", "success-with-an-unfinished-chain", "stage %r returned a Deferred that had not fired when the reactor stopped (fired afterwards: %r), yet the outcome is addSuccess" % (
                 late[0], (late[0], True) in fire_log)))
-        if late and reactor.interrupts_delivered and not timed_out and out is not None and "stop" not in names:
+        if late and reactor.interrupts_delivered and spec["interrupt"] < spec["timeout"] and out is not None and "stop" not in names:
+            # (delivered before the timeout was due, so it is the interrupt that cut the run)
             vs.append(V("interrupt", "no-stop", "the run was interrupted while stage %r was waiting, but the result was not asked to stop" % (late[0],)))
+        # ... and without any interrupt only the timeout can have ended such a run (independent of how the runner
+        # implements its timeout)
+        in_run = [e for e in events if e[0] == "start" and e[3]]
+        hung = None
+        if in_run:
+            s_ = stages[in_run[-1][1]]
+            if s_["mode"] in ("deferred", "chained") and (s_["never"] or (in_run[-1][1], False) not in fire_log):
+                hung = in_run[-1][1]
+        if hung and not reactor.interrupts_delivered and out is not None and out != "addError":
+            vs.append(V("outcome", "unfinished-chain-reported-as-%s" % out, "no interrupt was delivered and the reactor stopped while stage %r was still waiting for its Deferred (so the timeout elapsed), but the outcome is %s" % (hung, out)))
         # ---- cleanliness
         left = reactor.getDelayedCalls()
         if left:
@@ -358,6 +487,12 @@ def run_case(spec):
             for o in observers_before:
                 if o not in globalLogPublisher._observers:
                     globalLogPublisher.addObserver(o)
+        for o in extra_new:
+            if o in globalLogPublisher._observers:
+                globalLogPublisher.removeObserver(o)
+        for o in extra_legacy:
+            if o in tlog.theLogPublisher.observers:
+                tlog.removeObserver(o)
         if reactor.running:
             vs.append(V("clean", "reactor-running", "reactor still running"))
         # ---- the next test in the same process is unaffected
@@ -513,12 +648,17 @@ def interrupt_between_stages():
             for first in (1, 2):
                 for nxt in (0, 1):
                     for ties in ([0], [1], [0, 0], [1, 1], [0, 1], [1, 0]):
-                        stages = {n: quiet("sync", 0) for n in names}
-                        stages[names[k]] = quiet("deferred", first)
-                        stages[names[k + 1]] = quiet("deferred", nxt)
-                        yield {"setUp": stages["setUp"], "test": stages["test"], "tearDown": stages["tearDown"],
-                               "cleanups": [stages["cleanup0"]], "timeout": 20, "interrupt": first, "variant": variant,
-                               "suppress": False, "store": False, "ties": ties, "followup": "fresh-sync"}
+                        # then: the stage after the next one waits for a Deferred due 1 later - if the next stage's
+                        # 0-delay Deferred fires in the clean-up iterations, that call is scheduled during them
+                        for then in ((None, 1) if nxt == 0 and k + 2 < len(names) else (None,)):
+                            stages = {n: quiet("sync", 0) for n in names}
+                            stages[names[k]] = quiet("deferred", first)
+                            stages[names[k + 1]] = quiet("deferred", nxt)
+                            if then is not None:
+                                stages[names[k + 2]] = quiet("deferred", then)
+                            yield {"setUp": stages["setUp"], "test": stages["test"], "tearDown": stages["tearDown"],
+                                   "cleanups": [stages["cleanup0"]], "timeout": 20, "interrupt": first, "variant": variant,
+                                   "suppress": False, "store": False, "ties": ties, "followup": "fresh-sync"}
 
 
 def timeout_at_completion():
@@ -541,10 +681,43 @@ def timeout_at_completion():
                                    "suppress": False, "store": False, "ties": ties, "followup": "fresh-sync"}
 
 
+def cut_not_at_a_boundary():
+    """Exhaustive, no ties.  (a) A fractional timeout: stage k's Deferred fires at 1, 2 or 3 and the timeout is
+    half a unit later (success) or half a unit earlier (error) - a runner that rounds its timeout is off by a whole
+    stage.  (b) The run is cut (timeout, or interrupt) while stage k waits, after stage j <= k recorded a failed
+    expectThat: 'a timeout or an interrupt yields an error', not a failure."""
+    def quiet(mode, delay, expect=False):
+        return {"mode": mode, "delay": delay, "result": "ok", "value": None, "expect": expect, "never": False,
+                "leave_call": None, "log_err": "no", "drop_failed": False}
+    names = ["setUp", "test", "tearDown", "cleanup0"]
+    def spec(stages, timeout, interrupt, variant, ties):
+        return {"setUp": stages["setUp"], "test": stages["test"], "tearDown": stages["tearDown"],
+                "cleanups": [stages["cleanup0"]], "timeout": timeout, "interrupt": interrupt, "variant": variant,
+                "suppress": False, "store": False, "ties": ties, "followup": "fresh-sync", "observers": [0, 0]}
+    for variant in ("plain", "broken"):
+        for k in range(4):
+            for delay in (1, 2, 3):
+                for mode in ("deferred", "chained"):
+                    for half in (0.5, -0.5):
+                        for ties in ([0], [1]):     # (no ties arise; they would under a rounded timeout)
+                            stages = {n: quiet("sync", 0) for n in names}
+                            stages[names[k]] = quiet(mode, delay)
+                            yield spec(stages, delay + half, None, variant, ties)
+            for j in range(k + 1):
+                for cut in ("timeout", "interrupt"):
+                    for never in (False, True):
+                        stages = {n: quiet("sync", 0) for n in names}
+                        stages[names[k]] = quiet("deferred", 3)
+                        stages[names[k]]["never"] = never
+                        stages[names[j]]["expect"] = True
+                        yield spec(stages, 2 if cut == "timeout" else 20, 2 if cut == "interrupt" else None, variant, [])
+
+
 def subchecks(tier):
     q = tier == "quick"
     return [Sub("async_programs", run_case, CASE, 4000 if q else 100000),
             Sub("interrupt_between_stages", run_case, enum=interrupt_between_stages, enum_complete=True),
             Sub("timeout_at_completion", run_case, enum=timeout_at_completion, enum_complete=True),
+            Sub("cut_not_at_a_boundary", run_case, enum=cut_not_at_a_boundary, enum_complete=True),
             Sub("real_reactor_differential", run_differential, s_insensitive(), 60 if q else 1500, shrink=False,
                 note="timing-insensitive programs run on the virtual AND on Twisted's real global reactor; observations must agree")]
